@@ -19,6 +19,11 @@ RULE = ('canonical part: random recipes (as C01) are written by the real '
         'second parse/serialise cycle must change nothing. Non-trivial = '
         'file has >= 2 content sections; distinct = fingerprint of the '
         'bytes.')
+RULE += (
+         ' Also: foreign files whose indented preambles leave blank lines '
+         'unpadded (content shorter than the declared indent, same indent on'
+         ' later preambles). Process axes (DESIGN 2.8): 2 of 16 shards run '
+         'under python -O, 4 of 16 after a hostile warm-up of the library.')
 FLOOR = {'quick': 5000, 'thorough': 150000}
 REQUIRED_REACH = ['dom/writer.py:', 'dom/reader.py:']
 REQUIRED_COUNTERS = ['canonical_identity_checked', 'foreign_accepted',
